@@ -68,6 +68,11 @@ def correspond(ctx, corr, model_ok):
     corr.distribution.update(ended)
     corr.oracle_failures.extend(partial_cancel_oracle())
     corr.count('two endpoints: fragmented request cancelled while partly written', 40)
+    # an interaction ended by losing the connection in the middle of an inbound fragment train: nothing of it may be left
+    # in the reassembly cache of the next connection, where the same id starts a new interaction
+    from harness.props import c01
+    corr.oracle_failures.extend(c01.reconnect_oracle())
+    corr.count('reconnect with a partly reassembled frame, id used again', 4)
     if model_ok:
         E.trace_corr(corr, runs, KEEP, KEYS, 'C10 table/cache key sets vs model/Endpoint.v')
     corr.rule = ('legal random histories of 4..20 actions; key sets of the stream table and the reassembly cache compared '
@@ -85,11 +90,16 @@ def search(ctx, budget):
         for sc in runs:
             found.extend(f for f in oracle(sc))
         found.extend(partial_cancel_oracle())
+        from harness.props import c01
+        found.extend(c01.reconnect_oracle())
     return found
 
 
 def replay(obj):
     case = obj.get('case') or obj
+    if 'reconnect_case' in case:
+        from harness.props import c01
+        return bool(c01.reconnect_oracle())
     if 'partial_case' in case:
         r = run_partial_request_cancel(*case['partial_case'])
         return bool(any(r['open'].values()) or any(r['partial'].values()) or r['escaped'])
